@@ -60,6 +60,28 @@ def substitute(s, d):
     return s
 
 
+def substitute_bu(s, d):
+    """simultaneous bottom-up substitution on scripts (children first, then the REBUILT node is looked up): the other reading of
+    'find and replace sub-expressions'; it differs from the top-down one only for a key written in already-substituted form"""
+    t = s[0]
+    if t == "mem":
+        n = ["mem", substitute_bu(s[1], d), s[2], substitute_bu(s[3], d) if s[3] is not None else None]
+    elif t == "op":
+        n = ["op", s[1], [substitute_bu(a, d) for a in s[2]]]
+    elif t == "cond":
+        n = ["cond", substitute_bu(s[1], d), substitute_bu(s[2], d), substitute_bu(s[3], d)]
+    elif t == "slice":
+        n = ["slice", substitute_bu(s[1], d), s[2], s[3]]
+    elif t == "compose":
+        n = ["compose", [[substitute_bu(x, d), a, b] for x, a, b in s[1]]]
+    else:
+        n = s
+    for k, v in d:
+        if n == k:
+            return v
+    return n
+
+
 def exc_sig(law, ex):
     tb = sys.exc_info()[2]
     fn = "?"
@@ -162,7 +184,16 @@ def oracle(case):
             r = build(s).replace_expr(dct)
         except Exception as ex:
             return (exc_sig("subst", ex), "%s: %s replacing in %s" % (type(ex).__name__, ex, sshow(s)))
-        want_s = substitute(s, d)
+        if case.get("rk"):
+            # a key in already-substituted form: both readings of simultaneous substitution are accepted (top-down: the key never
+            # matches; bottom-up: the rebuilt parent matches), anything else is not a substitution
+            alts = [substitute(s, d), substitute_bu(s, d)]
+            if not any(r == build(a) for a in alts):
+                return (("subst", "rebuilt_key", top), "%s with %s: replace_expr gives %s, which is neither the top-down (%s) nor the bottom-up (%s) simultaneous substitution" % (
+                    sshow(s), [(sshow(k), sshow(v)) for k, v in d], r, sshow(alts[0]), sshow(alts[1])))
+            want_s = alts[0] if r == build(alts[0]) else alts[1]
+        else:
+            want_s = substitute(s, d)
         want = build(want_s)
         ids2 = sids(want_s)
         try:
@@ -336,7 +367,18 @@ def cases(draw):
                 d = [[["id", a, w_], ["id", ns[(i + 1) % len(ns)], w_]] for i, a in enumerate(ns)]
             else:
                 d = [[["id", a, w_], (["op", "^", [["id", ns[i + 1], w_], ["id", "r%d" % w_, w_]]] if i + 1 < len(ns) else draw(fresh_value(w_)))] for i, a in enumerate(ns)]
-    return {"s": s, "m": m, "d": d}
+    rk = False
+    if s[0] != "aff" and draw(st.integers(0, 4)) == 0:
+        # a key written in already-substituted form: {a: v1, parent(a)[a := v1]: v2}; the rebuilt parent is a transient node
+        leafps = [p for p in paths(s) if len(p) >= 2 and get_at(s, p)[0] == "id"]
+        if leafps:
+            p = draw(st.sampled_from(leafps))
+            a, par = get_at(s, p), get_at(s, p[:-1])
+            v1 = ["id", "s%d" % a[2], a[2]]
+            wp = swidth(par)
+            d = [[a, v1], [substitute(par, [(a, v1)]), ["id", "r%d" % wp, wp]]]
+            rk = True
+    return {"s": s, "m": m, "d": d, "rk": rk}
 
 
 def contains(big, small):
